@@ -120,7 +120,11 @@ func (c *cancelCtx) cancelLocked(s *Sched, t *Thread, err error, first bool) {
 	// close without a further scheduling point: err and done change together
 	k := c.done.k
 	k.closed = true
+	k.closeTok = t.curTok
 	for len(k.recvq) > 0 {
+		if raceOn {
+			k.recvq[0].t.acq = append(k.recvq[0].t.acq, t.curTok)
+		}
 		s.wakeWith(k.recvq[0], nil, false, "")
 	}
 	kids := c.children
@@ -137,7 +141,13 @@ func (c *cancelCtx) cancelLocked(s *Sched, t *Thread, err error, first bool) {
 	if p := parentCancelCtx(c.parent); p != nil {
 		for i, k := range p.children {
 			if k == c {
-				p.children = append(p.children[:i:i], p.children[i+1:]...)
+				nc := make([]*cancelCtx, 0, len(p.children))
+				for j, x := range p.children {
+					if j != i {
+						nc = append(nc, x)
+					}
+				}
+				p.children = nc
 				break
 			}
 		}
